@@ -396,7 +396,7 @@ Proof.
   - destruct (Z.leb (a_v c) (amount t)); [exact IH|reflexivity].
   - destruct (Z.ltb (amount t) (a_v c)); [exact IH|reflexivity].
   - destruct (Z.leb (amount t) (a_v c)); [exact IH|reflexivity].
-  - destruct (Z.ltb (Z.abs (amount t - a_v c)) CENT); [exact IH|reflexivity].
+  - destruct (near (amount t) (a_v c)); [exact IH|reflexivity].
   - destruct (Z.leb (a_v c) (amount t)); simpl; [|reflexivity].
     destruct (Z.leb (amount t) (a_hi c)); [exact IH|reflexivity].
 Qed.
@@ -581,3 +581,117 @@ Definition fails_on (raw : list csv_rule) (t : txn) : Prop :=
                       /\ ~ preserves_at re lx today (map loader_cells raw) t.
 Lemma fails_on_refutes raw t : fails_on raw t -> ~ conversion_preserves_statement.
 Proof. intros [re [lx [today [A [B [C D]]]]]] H. apply D. now apply H. Qed.
+
+(* ------------------------------------------------------------------ the generated lines are read back verbatim *)
+Lemma rstrip_app_blank a b : rstrip b = "" -> rstrip (a ++ b) = rstrip a.
+Proof. intros Hb. induction a as [|c a IH]; simpl; [exact Hb|]. now rewrite IH. Qed.
+
+Lemma strip_comm v : rstrip (lstrip v) = lstrip (rstrip v).
+Proof.
+  induction v as [|c r IH]; [reflexivity|].
+  cbn [lstrip]. destruct (is_ws c) eqn:W.
+  - cbn [rstrip]. destruct (rstrip r) as [|c' r'] eqn:E.
+    + rewrite W. rewrite IH. reflexivity.
+    + rewrite IH. cbn [lstrip]. now rewrite W.
+  - cbn [rstrip]. destruct (rstrip r) as [|c' r'] eqn:E; rewrite ?W; cbn [lstrip]; now rewrite W.
+Qed.
+
+Lemma strip_of_rstrip v : strip (rstrip v) = strip v.
+Proof. unfold strip. rewrite strip_comm, rstrip_idem, <- strip_comm. reflexivity. Qed.
+
+Lemma last_char_app m c : last_char (m ++ String c "") = Some c.
+Proof.
+  induction m as [|x m IH]; [reflexivity|].
+  simpl. destruct (m ++ String c "") eqn:E; [destruct m; discriminate|]. exact IH.
+Qed.
+Lemma drop_last_app m c : drop_last (m ++ String c "") = m.
+Proof.
+  induction m as [|x m IH]; [reflexivity|].
+  simpl. destruct (m ++ String c "") eqn:E; [destruct m; discriminate|]. now rewrite IH.
+Qed.
+
+(* `[merchant]` is a header whatever the merchant text is; its name is the stripped text *)
+Theorem classify_header b m :
+  classify_line b ("[" ++ m ++ "]") = if nonempty (strip m) then KHeader (strip m) else KEmptyHeader.
+Proof.
+  unfold classify_line.
+  assert (E : strip ("[" ++ m ++ "]") = String (chr 91) (m ++ String (chr 93) "")).
+  { unfold strip. change ("[" ++ m ++ "]") with (String (chr 91) (m ++ String (chr 93) "")).
+    cbn [lstrip]. change (is_ws (chr 91)) with false. cbv iota.
+    change (String (chr 91) (m ++ String (chr 93) "")) with ((String (chr 91) m) ++ String (chr 93) "") at 1.
+    rewrite rstrip_app_nonblank; [reflexivity|discriminate]. }
+  rewrite E. change (is_hash (chr 91)) with false. change (is_lbr (chr 91)) with true. cbv iota.
+  change (last_char (String (chr 91) (m ++ String (chr 93) ""))) with (last_char ((String (chr 91) m) ++ String (chr 93) "")).
+  rewrite last_char_app. change (is_rbr (chr 93)) with true. cbn [andb]. rewrite drop_last_app. reflexivity.
+Qed.
+
+Lemma no_ws_lstrip k : sexists (fun c => (is_ws c || is_colon c)%bool) k = false -> lstrip k = k.
+Proof. destruct k as [|c r]; [reflexivity|]. simpl. intros H. apply orb_false_iff in H. destruct H as [H _].
+  apply orb_false_iff in H. destruct H as [-> _]. reflexivity. Qed.
+
+Lemma no_ws_rstrip k : sexists (fun c => (is_ws c || is_colon c)%bool) k = false -> rstrip k = k.
+Proof.
+  induction k as [|c r IH]; [reflexivity|]. simpl. intros H. apply orb_false_iff in H. destruct H as [Hc Hr].
+  apply orb_false_iff in Hc. destruct Hc as [W _]. rewrite (IH Hr). destruct r; [now rewrite W|reflexivity].
+Qed.
+
+Lemma split_colon_key k w : sexists (fun c => (is_ws c || is_colon c)%bool) k = false ->
+  split_colon (k ++ String (chr 58) w) = Some (k, w).
+Proof.
+  induction k as [|c r IH]; intros H; [reflexivity|].
+  simpl in H. apply orb_false_iff in H. destruct H as [Hc Hr]. apply orb_false_iff in Hc. destruct Hc as [_ C].
+  cbn [append split_colon]. rewrite C, (IH Hr). reflexivity.
+Qed.
+
+(* a property line `key: value` gives back the stripped value and nothing else is interpreted in it: no comment
+   marker, colon, bracket, quote or `=` inside the value changes what is read *)
+Theorem classify_prop key v : key_ok key = true ->
+  classify_line true (key ++ ": " ++ v) = KProp key (strip v).
+Proof.
+  unfold key_ok. rewrite !andb_true_iff. intros [[[Hne Hws] Hfirst] Hlow].
+  apply String.eqb_eq in Hlow. apply negb_true_iff in Hws.
+  assert (Hs : exists w, strip (key ++ ": " ++ v) = key ++ String (chr 58) w /\ strip w = strip v).
+  { unfold strip at 1. rewrite lstrip_app_first; [|now apply no_ws_lstrip|now apply nonempty_true].
+    destruct (rstrip v) as [|c r] eqn:Ev.
+    - exists "". split.
+      + change (key ++ ": " ++ v) with (key ++ (String (chr 58) (String (chr 32) "")) ++ v).
+        rewrite <- sapp_assoc. rewrite rstrip_app_blank by exact Ev.
+        change (key ++ String (chr 58) (String (chr 32) "")) with (key ++ (String (chr 58) "") ++ (String (chr 32) "")).
+        rewrite <- sapp_assoc. rewrite rstrip_app_blank by reflexivity.
+        rewrite rstrip_app_nonblank by discriminate. reflexivity.
+      + unfold strip. rewrite (strip_comm v), Ev. reflexivity.
+    - exists (String (chr 32) (rstrip v)). split.
+      + change (key ++ ": " ++ v) with (key ++ (String (chr 58) (String (chr 32) "")) ++ v).
+        rewrite <- sapp_assoc. rewrite rstrip_app_nonblank by (rewrite Ev; discriminate).
+        rewrite sapp_assoc. reflexivity.
+      + transitivity (strip (rstrip v)); [reflexivity|apply strip_of_rstrip]. }
+  destruct Hs as [w [Es Ew]]. unfold classify_line. rewrite Es.
+  destruct key as [|c0 k0]; [discriminate|].
+  cbn [append]. apply negb_true_iff in Hfirst. apply orb_false_iff in Hfirst. destruct Hfirst as [Hh Hb].
+  rewrite Hh, Hb. cbn [andb negb]. cbv iota.
+  change (String c0 (k0 ++ String (chr 58) w)) with ((String c0 k0) ++ String (chr 58) w).
+  rewrite (split_colon_key _ w Hws). rewrite Ew.
+  unfold strip. rewrite (no_ws_lstrip _ Hws), (no_ws_rstrip _ Hws), Hlow. reflexivity.
+Qed.
+
+(* the header and the three plain-value lines of a generated block, read back line by line *)
+Theorem block_lines_read_back r : noop_rule r = false ->
+  exists mline rest,
+    block_lines r = ("[" ++ merchant r ++ "]") :: mline :: ("category: " ++ category r) :: ("subcategory: " ++ subcategory r) :: rest /\
+    classify_line true ("[" ++ merchant r ++ "]")
+      = (if nonempty (strip (merchant r)) then KHeader (strip (merchant r)) else KEmptyHeader) /\
+    classify_line true mline = KProp "match" (strip (match_text r)) /\
+    classify_line true ("category: " ++ category r) = KProp "category" (strip (category r)) /\
+    classify_line true ("subcategory: " ++ subcategory r) = KProp "subcategory" (strip (subcategory r)) /\
+    (rest = [""] \/ exists tg, tags r = tg /\ tg <> [] /\ rest = [("tags: " ++ join ", " tg); ""] /\
+                    classify_line true ("tags: " ++ join ", " tg) = KProp "tags" (strip (join ", " tg))).
+Proof.
+  intros Hn. unfold block_lines. rewrite Hn.
+  exists ("match: " ++ match_text r). eexists. split; [reflexivity|].
+  split; [apply classify_header|].
+  split; [apply (classify_prop "match"); reflexivity|].
+  split; [apply (classify_prop "category"); reflexivity|].
+  split; [apply (classify_prop "subcategory"); reflexivity|].
+  destruct (tags r) as [|x l] eqn:E; [now left|].
+  right. exists (x :: l). repeat split; try discriminate. apply (classify_prop "tags"). reflexivity.
+Qed.
